@@ -4,6 +4,7 @@ use crate::server::{Plan, Req, Server};
 use ippref::{MGroup, MVal, Model, Strictness};
 use std::collections::BTreeMap;
 use std::io::Write;
+use std::os::unix::fs::OpenOptionsExt;
 use std::process::{Command, Stdio};
 use std::sync::atomic::{AtomicUsize, Ordering::SeqCst};
 use std::sync::{Arc, Mutex};
@@ -19,6 +20,8 @@ struct Case {
     id: String,
     doc: Vec<u8>,
     via_stdin: bool,
+    /// how the document reaches ipputil: "file" (regular file), "stdin" (pipe, no -f), "fifo" (-f names a FIFO), "devstdin" (-f /dev/stdin on a pipe)
+    source: &'static str,
     job_name: Option<String>,
     user_name: Option<String>,
     options: Vec<(String, String)>,
@@ -120,7 +123,8 @@ fn gen_case(seed: u64, i: u64, tier: &str) -> Case {
     Case {
         id: format!("u{i}"),
         doc,
-        via_stdin: r.chance(1, 3),
+        via_stdin: false,
+        source: *r.pick(&["file", "file", "file", "stdin", "stdin", "fifo", "devstdin"]),
         job_name: if r.chance(2, 3) { Some(text(&mut r)) } else { None },
         user_name: if r.chance(2, 3) { Some(text(&mut r)) } else { None },
         options,
@@ -209,11 +213,35 @@ fn run_one(srv: &Arc<Server>, ipputil: &str, work: &str, c: Case) -> Outcome {
         argv.push("-n".into());
     }
     let path = format!("{work}/{}.doc", c.id);
-    if !c.via_stdin {
-        std::fs::write(&path, &c.doc).expect("write doc");
-        argv.push("-f".into());
-        argv.push(path.clone());
+    let mut fifo_writer = None;
+    match c.source {
+        "file" => {
+            std::fs::write(&path, &c.doc).expect("write doc");
+            argv.push("-f".into());
+            argv.push(path.clone());
+        }
+        "fifo" => {
+            let _ = std::fs::remove_file(&path);
+            let ok = Command::new("mkfifo").arg(&path).status().map(|s| s.success()).unwrap_or(false);
+            assert!(ok, "mkfifo failed");
+            argv.push("-f".into());
+            argv.push(path.clone());
+            let doc = c.doc.clone();
+            let p2 = path.clone();
+            // the writer blocks in open() until ipputil opens the FIFO for reading
+            fifo_writer = Some(std::thread::spawn(move || {
+                if let Ok(mut f) = std::fs::OpenOptions::new().write(true).open(&p2) {
+                    let _ = f.write_all(&doc);
+                }
+            }));
+        }
+        "devstdin" => {
+            argv.push("-f".into());
+            argv.push("/dev/stdin".into());
+        }
+        _ => {}
     }
+    let via_stdin = c.source == "stdin" || c.source == "devstdin";
     if let Some(j) = &c.job_name {
         argv.push("-j".into());
         argv.push(j.clone());
@@ -227,8 +255,8 @@ fn run_one(srv: &Arc<Server>, ipputil: &str, work: &str, c: Case) -> Outcome {
         argv.push(format!("{k}={v}"));
     }
     argv.push(uri);
-    let mut child = Command::new(ipputil).args(&argv).stdin(if c.via_stdin { Stdio::piped() } else { Stdio::null() }).stdout(Stdio::null()).stderr(Stdio::piped()).spawn().expect("spawn ipputil");
-    if c.via_stdin {
+    let mut child = Command::new(ipputil).args(&argv).stdin(if via_stdin { Stdio::piped() } else { Stdio::null() }).stdout(Stdio::null()).stderr(Stdio::piped()).spawn().expect("spawn ipputil");
+    if via_stdin {
         let mut si = child.stdin.take().unwrap();
         let doc = c.doc.clone();
         std::thread::spawn(move || {
@@ -257,16 +285,27 @@ fn run_one(srv: &Arc<Server>, ipputil: &str, work: &str, c: Case) -> Outcome {
         use std::io::Read;
         let _ = e.read_to_string(&mut stderr);
     }
+    if let Some(h) = fifo_writer {
+        // if ipputil never opened the FIFO (e.g. the state check refused), unblock the writer by opening the read side ourselves
+        if !h.is_finished() {
+            let _ = std::fs::OpenOptions::new().read(true).custom_flags(libc_o_nonblock()).open(&path);
+        }
+        let _ = h.join();
+    }
     let _ = std::fs::remove_file(&path);
     let requests = srv.requests_for(&c.id);
     srv.off(&c.id);
     Outcome { case: c, exit: status.and_then(|s| s.code()), stderr, requests, argv, timed_out }
 }
 
+fn libc_o_nonblock() -> i32 {
+    0o4000 // O_NONBLOCK on Linux
+}
+
 fn judge(rep: &mut Report, o: &Outcome, port: u16, replay: &[String]) {
     rep.eval();
     let c = &o.case;
-    let label = format!("ipputil {:?} (doc {}B via {})", o.argv, c.doc.len(), if c.via_stdin { "stdin" } else { "file" });
+    let label = format!("ipputil {:?} (doc {}B via {})", o.argv, c.doc.len(), c.source);
     let mut viol = |rep: &mut Report, sig: &str, why: String| {
         rep.violation(format!("C18:{sig}"), format!("{label}: {why}; exit={:?} stderr={:?}", o.exit, o.stderr.chars().take(200).collect::<String>()), replay.to_vec());
     };
@@ -403,7 +442,7 @@ pub fn run(args: &Args, tier: &str, seed: u64) -> Report {
     for o in &outs {
         let replay = vec!["c18".to_string(), "--seed".into(), seed.to_string(), "--only".into(), o.case.id[1..].to_string()];
         rep.max("max_document_bytes", o.case.doc.len() as i64);
-        rep.seen("document_sources", if o.case.via_stdin { "stdin" } else { "file" });
+        rep.seen("document_sources", o.case.source);
         for (_, v) in &o.case.options {
             rep.seen("option_value_classes", match classify(v) {
                 MVal::Boolean(_) => "boolean",
@@ -417,7 +456,7 @@ pub fn run(args: &Args, tier: &str, seed: u64) -> Report {
         judge(&mut rep, o, srv.port, &replay);
     }
     srv.stop();
-    rep.rule = "The real ipputil binary built from /repo/util is run as a child process against the loopback peer: command lines (file or stdin document of 0 B..MiBs of arbitrary bytes, optional -j/-u, 0..5 -o key=value options over the textual classes true/false / decimal i32 incl. boundaries / keyword incl. values containing '=' and empty values, -n on/off, extra -H headers, http:// and ipp:// targets) x scripted printers (printer-state idle/processing/stopped, reasons none / blocking keyword single or in a set, IPP status of each reply, HTTP errors). Offline checker over the peer's event log + exit status: expected exchange sequence (Get-Printer-Attributes first unless -n; nothing after a stopped/blocked answer or a failed check; exactly one Print-Job otherwise), document bytes == file/stdin bytes, job-name / requesting-user-name as nameWithoutLanguage, options typed by the reference text classifier, extra headers on every request, exit 0 <=> every exchange succeeded with a successful status (exit status after a not-ready refusal is recorded, not judged). evaluations = ipputil runs.".into();
+    rep.rule = "The real ipputil binary built from /repo/util is run as a child process against the loopback peer: command lines (document of 0 B..MiBs of arbitrary bytes given as a regular file, on standard input, as a FIFO named by -f, or as -f /dev/stdin on a pipe, optional -j/-u, 0..5 -o key=value options over the textual classes true/false / decimal i32 incl. boundaries / keyword incl. values containing '=' and empty values, -n on/off, extra -H headers, http:// and ipp:// targets) x scripted printers (printer-state idle/processing/stopped, reasons none / blocking keyword single or in a set, IPP status of each reply, HTTP errors). Offline checker over the peer's event log + exit status: expected exchange sequence (Get-Printer-Attributes first unless -n; nothing after a stopped/blocked answer or a failed check; exactly one Print-Job otherwise), document bytes == file/stdin bytes, job-name / requesting-user-name as nameWithoutLanguage, options typed by the reference text classifier, extra headers on every request, exit 0 <=> every exchange succeeded with a successful status (exit status after a not-ready refusal is recorded, not judged). evaluations = ipputil runs.".into();
     if only.is_none() {
         rep.require(rep.sets.get("option_value_classes").map(|s| s.len()).unwrap_or(0) == 3, "boolean, integer and keyword option values exercised");
         rep.require(rep.sets.get("exchange_shapes").map(|s| s.len()).unwrap_or(0) >= 4, "several exchange shapes (ready, blocked, failing) exercised");
